@@ -499,6 +499,18 @@ func VerifH08d() {
 	}
 	_, err = p.Scan(999999)
 	vAssert("scan-unknown-oid-is-error", err == ErrUnknownOid)
+	// the other character types decode to the text the client sent, byte for
+	// byte (leading and trailing blanks are part of the value)
+	coid := []uint32{uint32(oid.T_bpchar), uint32(oid.T_name), uint32(oid.T_varchar), uint32(oid.T_unknown)}[vChoose(4)]
+	cgot, cerr := p.Scan(coid)
+	vAssert("scan-character-type-ok", cerr == nil)
+	if isNull {
+		vAssert("scan-character-type-null-is-nil", cgot == nil)
+	} else if f == TextFormat {
+		cs, isStr := cgot.(string)
+		vAssert("scan-character-type-is-the-text-sent", isStr && vEqStr(cs, string(v)))
+		vReach("scan-character-type")
+	}
 
 	// a binary int4 / int2 / int8 parameter decodes, through pgx's own codec, to
 	// the number the client sent; any other length is an error; NULL stays nil
